@@ -56,6 +56,39 @@ def job_contain_fp(res, n, nb, fptrack, dt):
         prove(res, 'Fokker-Planck applyTo tracking model %d (stencil %d) n=%d: new position inside [0,%d]^2 for every start in the grid, every noise draw (case %s)' % (fptrack, dt, n, n - 1, [str(c)[:40] for c in s.pc[-1:]]),
               s.pc, z3.Or(nx < 0, nx > n - 1, ny < 0, ny > n - 1), key='fp-applyTo-containment-model%d' % fptrack, cex_fn=cex)
 
+def job_contain_ieee(res, n, what, fptrack, dt, yi):
+    """IEEE-754 semantics (z3 FP theory) of the final clamp: position (x, yi+f), f an arbitrary float in [0,1); the data cells the model reads are arbitrary
+    finite non-negative floats (so the local charge may be exactly zero: 0/0 = NaN natively).  The new coordinate is a number inside the grid."""
+    bld = maps_build(); mod = load_module(bld, MAPS_MODS)
+    snap, R, pre = maps_world(bld, n, 1, 4, fptrack=fptrack, dt=dt, pmax=6.5)
+    ex = Exec(mod, snap, FPDom()); ex.int_range = (-2, n + 2); st = State(); S32 = z3.Float32()
+    def fpsym(name, lo, hi, strict=False):
+        v = z3.FP(name, S32); st.pc += [z3.fpGEQ(v, z3.FPVal(float(lo), S32)), (z3.fpLT if strict else z3.fpLEQ)(v, z3.FPVal(float(hi), S32))]; st.ranges[name] = (lo, hi); return v
+    x0 = n // 2
+    py = fpsym('py', yi, min(yi + 1, n - 1), strict=(yi + 1 <= n - 1) and yi < n - 1)
+    ex.write_bytes(st, R['pos'], struct.pack('<f', float(x0))); st.sym[R['pos'] + 4] = (4, 'f', py)
+    if what == 'fpm':
+        for y in range(n): st.sym[R['data_in'] + 4 * (x0 * n + y)] = (4, 'f', fpsym('d%d' % y, 0, 1e30))
+        obj = R['fpm']
+    else:
+        force = ex.run1(State(), 'e_force', [R[what]]).retval
+        for i in range(n): st.sym[force + 4 * i] = (4, 'f', fpsym('o%d' % i, -3e38, 3e38))
+        ex.write_bytes(st, R['pos'], struct.pack('<f', float(yi))); st.sym.pop(R['pos'] + 4, None); ex.write_bytes(st, R['pos'] + 4, struct.pack('<f', float(x0)))
+        if what == 'kmy': st.sym[R['pos']] = (4, 'f', py)
+        else: ex.write_bytes(st, R['pos'], struct.pack('<f', float(x0))); st.sym[R['pos'] + 4] = (4, 'f', py)
+        obj = R[what]
+    sts = run_paths(ex, st, 'e_applyTo', [obj, R['pos']]); account(res, ex, mod, sts)
+    for s in sts:
+        bad = []
+        for off_ in (0, 4):
+            v = ex.load(s, R['pos'] + off_, F32)
+            if ex.dom.is_conc(v):
+                if not (0 <= float(v) <= n - 1): bad.append(z3.BoolVal(True))
+            else: bad.append(z3.Not(z3.And(z3.Not(z3.fpIsNaN(v)), z3.fpGEQ(v, z3.FPVal(0.0, S32)), z3.fpLEQ(v, z3.FPVal(float(n - 1), S32)))))
+        prove(res, '%s applyTo (tracking model %d, stencil %d) n=%d row %d, IEEE semantics: new coordinates are numbers inside [0,%d] for every float position in the row and every finite input the model reads (incl. zero local charge)' % (what, fptrack, dt, n, yi, n - 1),
+              s.pc, z3.Or(*bad) if bad else z3.BoolVal(False), key='applyTo-containment-ieee', timeout_ms=180000,
+              cex_fn=lambda m: {'replay': 'fppos', 'n': n, 'nb': 1, 'fptrack': fptrack, 'dt': dt, 'pos': [float(x0), mval(m, py)], 'ieee': True})
+
 def job_stochastic_model(res, n, dt):
     """the stochastic model damps toward the zero-energy bin with decrement e1 and adds N(0, sqrt(2 e1)/delta) noise"""
     bld = maps_build(); mod = load_module(bld, MAPS_MODS)
@@ -159,12 +192,16 @@ def main(tier):
         jobs = [(job_contain_kick, (8, 1, 2, ax)) for ax in (0, 1)] + [(job_contain_kick, (6, 2, 4, ax)) for ax in (0, 1)]
         jobs += [(job_contain_fp, (8, 1, ft, dt)) for ft in (0, 1, 2, 3) for dt in (3, 4)]
         jobs += [(job_stochastic_model, (8, 3)), (job_stochastic_model, (9, 4))]
+        jobs += [(job_contain_ieee, (8, 'fpm', ft, dt, yi)) for ft in (1, 2) for dt in (3, 4) for yi in (0, 1, 4, 6, 7)]
+        jobs += [(job_contain_ieee, (8, w, 1, 3, yi)) for w in ('kmx', 'kmy') for yi in (0, 3, 7)]
         jobs += [(job_centroid, (10, it, ax, X, Y, fr)) for it in (2, 4) for ax in (0, 1) for (X, Y) in ((4, 5), (2, 4)) for fr in (0, 1)]
         jobs += [(job_centroid, (10, 3, ax, 5, 5, fr)) for ax in (0, 1) for fr in (0, 1)]
     else:
         jobs = [(job_contain_kick, (n, nb, it, ax)) for n, nb in ((8, 1), (6, 2), (9, 1), (12, 1)) for it in (1, 2, 3, 4) for ax in (0, 1)]
         jobs += [(job_contain_fp, (n, nb, ft, dt)) for n, nb in ((8, 1), (9, 1), (6, 2)) for ft in (0, 1, 2, 3) for dt in (3, 4)]
         jobs += [(job_stochastic_model, (n, dt)) for n in (8, 9, 12) for dt in (3, 4)]
+        jobs += [(job_contain_ieee, (n, 'fpm', ft, dt, yi)) for n in (8, 9) for ft in (1, 2) for dt in (3, 4) for yi in range(n)]
+        jobs += [(job_contain_ieee, (8, w, 1, 3, yi)) for w in ('kmx', 'kmy') for yi in range(8)]
         jobs += [(job_centroid, (n, it, ax, X, Y, fr)) for n in (10, 11) for it in (2, 3, 4) for ax in (0, 1) for X in range(2, n - 3) for Y in range(3, n - 3) for fr in (0, 1)]
     chk.bounds = {'containment': 'every real start position in [0,n-1]^2 (integer part of the interpolation coordinate case-split), every real displacement field / noise draw (unbounded), grids 6-12',
                   'centroid': 'unit blob on a grid point or split over two neighbouring rows (half-integer position), displacement of each involved row symbolic in [-1,1]; interior points; it>=2',
